@@ -704,6 +704,14 @@ Theorem read_index_covers_commits : forall V, NoDup V -> forall s r j,
 Proof. exact RaftNetRead.read_index_covers_commits. Qed.
 Print Assumptions read_index_covers_commits.
 
+(* readIndex.confirm releases the older pending reads together with the confirmed one, at
+   its index ([reads s] is newest first) *)
+Theorem read_index_covers_older_reads : forall V, NoDup V -> forall s pre r post r' j,
+  reachableR V s -> reads s = pre ++ r :: post -> In r' post -> confirmed V s r ->
+  hcommit (nodes (r_snap r') j) <= r_index r.
+Proof. exact RaftNetRead.read_index_covers_older_reads. Qed.
+Print Assumptions read_index_covers_older_reads.
+
 Theorem step_fnR_sound : forall V s l s', step_fnR V s l = Some s' -> stepR V s l s'.
 Proof. exact RaftNetRead.step_fnR_sound. Qed.
 Print Assumptions step_fnR_sound.
